@@ -5,7 +5,12 @@
      to_bytes   = bitcode::encode(&self.workbook)
      from_bytes = bitcode::decode(s)  then  from_workbook(workbook, language_id)
      from_workbook: get_locale(settings.locale)?  Tz::parse(settings.tz)?  get_language(id)?
-                    Model { workbook, parsed_formulas = [], .. }; parse_formulas(); parse_defined_names()
+                    Model { workbook, parsed_formulas = [], .. }; parse_formulas(); parse_defined_names();
+                    evaluate_conditional_formatting()
+   The last call evaluates the formulas of conditional-format rules, which evaluates the cells they
+   read and WRITES their computed values into the workbook: [cf_eval] (a parameter; it leaves
+   everything [view] shows untouched and is the identity on a workbook without conditional formats —
+   premises of the theorems, checked on every run).
 
    The stored workbook [W] (types.rs [Workbook]) and the codec are parameters; what the loader
    reads of the workbook is the projection [view].  Every shared formula of every worksheet is
@@ -25,6 +30,7 @@ Record wb_view := {
   v_tables : list text;                           (* workbook.tables (names) *)
   v_locale : text;                                (* settings.locale *)
   v_tz : text;                                    (* settings.tz *)
+  v_has_cf : bool;                                (* some worksheet has a conditional format *)
 }.
 
 (* the fields of [Model] the property talks about; PN = parsed_defined_names *)
@@ -46,7 +52,8 @@ Section Persist.
   Variable dec : B -> option W.            (* bitcode::decode *)
   Variable PN : Type.
   Variable view : W -> wb_view.
-  Variable parse_names : W -> PN.          (* parse_defined_names: reads workbook.defined_names, the sheet list and settings.locale *)
+  Variable parse_names : wb_view -> PN.    (* parse_defined_names: reads workbook.defined_names, the sheet list and settings.locale *)
+  Variable cf_eval : W -> W.               (* evaluate_conditional_formatting: rewrites computed cell values only *)
   Variable valid_locale : text -> bool.    (* get_locale(..).is_ok() *)
   Variable valid_tz : text -> bool.        (* Tz::parse(..).is_ok() *)
   Variable valid_lang : text -> bool.      (* get_language(..).is_ok() *)
@@ -72,7 +79,7 @@ Section Persist.
     if negb (valid_locale (v_locale (view w))) then Err
     else if negb (valid_tz (v_tz (view w))) then Err
     else if negb (valid_lang lang) then Err
-    else Ok {| m_wb := w; m_parsed := parse_formulas (view w); m_names := parse_names w; m_lang := lang |}.
+    else Ok {| m_wb := cf_eval w; m_parsed := parse_formulas (view w); m_names := parse_names (view w); m_lang := lang |}.
 
   Definition to_bytes (m : model W PN) : B := enc (m_wb m).
 
